@@ -75,14 +75,24 @@ def comm_runs(seed, tier):
             fails.append({'what': 'run ended with %s %s (a mis-framed buffer shows up as a crash or a wrong lambda id)' % (r['verdict'], r['detail']), 'config': cfg, 'cmd': r['cmd'],
                           'states': [l for l in r['out'] if l.startswith(('STATE', 'EXIT'))][:8]})
             continue
+        packed = {}
+        for l in r['out']:
+            if l.startswith('OS '):
+                kv = dict(t.split('=') for t in l.split()[1:])
+                packed[kv['uid']] = int(kv['body'])
         for l in xs:
             kv = dict(t.split('=') for t in l.split()[1:])
             if kv['ok'] != '1':
                 fails.append({'what': 'functor state or arguments of message %s arrived changed (functor size %s)' % (kv['uid'], kv['fsize']), 'config': cfg, 'cmd': r['cmd']}); break
+            # each handler consumes exactly the bytes its sender packed for it (2 of them are the lambda id, read by the dispatcher)
+            body = packed.get(kv['uid'])
+            if body is not None and int(kv['consumed']) != body - 2:
+                fails.append({'what': 'handler of message %s consumed %s bytes, the sender packed %d bytes of functor state and arguments for it (functor size %s)' % (kv['uid'], kv['consumed'], body - 2, kv['fsize']), 'config': cfg, 'cmd': r['cmd']}); break
+            if routing != 'NONE' and body is not None and int(kv['hsize']) != body:
+                fails.append({'what': 'header of message %s says %s bytes, the sender packed %d' % (kv['uid'], kv['hsize'], body), 'config': cfg, 'cmd': r['cmd']}); break
+            # the modelled layout (Wire.v): functor bytes, 8-byte size tags
             if kv['consumed'] != kv['expect']:
-                fails.append({'what': 'handler of message %s consumed %s bytes, its functor and arguments are %s bytes (functor size %s)' % (kv['uid'], kv['consumed'], kv['expect'], kv['fsize']), 'config': cfg, 'cmd': r['cmd']}); break
-            if routing != 'NONE' and int(kv['hsize']) != int(kv['expect']) + 2:
-                fails.append({'what': 'header of message %s says %s bytes, lambda id + functor + arguments are %d' % (kv['uid'], kv['hsize'], int(kv['expect']) + 2), 'config': cfg, 'cmd': r['cmd']}); break
+                fails.append({'what': 'handler of message %s consumed %s bytes, the modelled layout has %s (functor size %s)' % (kv['uid'], kv['consumed'], kv['expect'], kv['fsize']), 'config': cfg, 'cmd': r['cmd'], 'level': 'model'}); break
         if len(xs) != n * (60 if tier == 'quick' else 300):
             fails.append({'what': '%d handler executions for %d messages' % (len(xs), n * (60 if tier == 'quick' else 300)), 'config': cfg, 'cmd': r['cmd']})
     return nmsg, fails
